@@ -132,3 +132,11 @@ Fixpoint nat_list_eqb (a b : list nat) : bool :=
   match a, b with [] , [] => true | x :: a', y :: b' => Nat.eqb x y && nat_list_eqb a' b' | _, _ => false end.
 Definition chk_chunks (n : nat) (obs : list nat) : N :=
   flag (nat_list_eqb (map (@length unit) (chunks_of n MAX_BATCH (repeat tt n))) obs) 256.
+
+(** the entry guards of [verify_batch] (Model/VerifyTop.v): an empty or length-mismatched triple of
+    slices is refused before anything else.  Result code 512 = the model refuses, the implementation does not. *)
+Definition chk_shape (ns np nt : nat) (obs_ok : bool) : N :=
+  match verify_batch Kl k_of_N VerifyOnly ns np nt [] [] with
+  | Err => flag (negb obs_ok) 512
+  | Ok _ => 0%N
+  end.
